@@ -50,6 +50,19 @@ for m in sorted(glob.glob(f'{ROOT}/seeded/*/meta.json')):
   br = re.sub(r'^#\s*', '', d.get('breaks', '')).replace('|', '/')[:160]
   out.append(f"| {d['id']} | {br} | `{ob}` | {kind} |")
 out.append(f'\n{hit} of {n} seeded changes are reported (exit 1 with a VIOLATION line); every check exits 0 on the unchanged tree.\n')
+out.append('### A.3b Behaviour-preserving refactorings and what the checks report (generated from /verif/refactorings/*/meta.json)\n')
+out.append('Each refactoring passes its own demo on the pristine and the patched tree and the pinned 427-test suite. A VIOLATION here would be a false alarm; "undecided" (exit 2) means the rewritten code left the verified subset or needs a new annotation.\n')
+out.append('| refactoring | what it changes | verdict of the property\'s check |')
+out.append('|----|----|----|')
+cnt = {}
+for m in sorted(glob.glob(f'{ROOT}/refactorings/*/meta.json')):
+  d = json.load(open(m)); cr = d.get('check_result', {})
+  v = cr.get('verdict', 'not run' if cr.get('applies', True) else 'patch does not apply')
+  cnt[v] = cnt.get(v, 0) + 1
+  what = re.sub(r'^#\s*', '', d.get('what', '')).replace('|', '/')[:150]
+  why = (cr.get('lines') or [''])[0].split(': outside subset: ')[-1][:110] if v == 'undecided' else ''
+  out.append(f"| {d['id']} | {what} | {v}{' - ' + why if why else ''} |")
+out.append('\nTotals: ' + ', '.join(f'{k}: {v}' for k, v in sorted(cnt.items())) + '.\n')
 txt = open(f'{ROOT}/DESIGN.md').read()
 a, b = '<!-- AS-BUILT:BEGIN -->', '<!-- AS-BUILT:END -->'
 i, j = txt.index(a) + len(a), txt.index(b)
